@@ -360,12 +360,12 @@ class FnCtx:
             if is_glvalue(x) and not self.lw.ty(x).kind == 'ptr':
                 s = self.ex(x)
                 for p in path:
-                    s = '%s.__base_%s' % (s, sanitize(p['name'].split('::')[-1]))
+                    s = '%s.__base_%s' % (s, sanitize(re.sub(r'<.*>$', '', p['name']).split('::')[-1]))
                 return s
             s = self.ex(x)
             inner = '(*%s)' % s
             for p in path:
-                inner = '%s.__base_%s' % (inner, sanitize(p['name'].split('::')[-1]))
+                inner = '%s.__base_%s' % (inner, sanitize(re.sub(r'<.*>$', '', p['name']).split('::')[-1]))
             return '(%s ? &%s : ((%s)0))' % (s, inner, self.lw.ctype(t)) if False else '(&%s)' % inner
         if ck == 'BaseToDerived':
             # base is the first member, so the address is the same
